@@ -1,5 +1,126 @@
-import FluentModel.Parser
+import FluentProofs.ParserHoareEntry
+/-!
+# C01 — parsing is total
+
+For **every** input string the full parser model `parse` and the runtime parser model
+`parseRuntime` finish with `Outcome.done`: no Rust panic site is reachable (every `&str[a..b]` is
+in range and on char boundaries, no `usize` underflow, both `unreachable!` arms are dead) and the
+fuel the drivers pass (`exprFuel s = 8·len + 16` for the mutually recursive expression/pattern
+functions, `len + 1` for the entry loops, `len - p + 1` for `get_attributes`/`get_comment`) is
+never exhausted — i.e. every loop makes progress.  Moreover every string stored in the resulting
+tree and every error's `slice` is a byte range on which Rust's slicing is defined.
+
+The only fact about UTF-8 that is used is `AsciiThenBoundary` ("the position after an ASCII byte
+is a char boundary"); it is proved for the bytes of every `String`
+(`asciiThenBoundary_of_string`), so the `String`-level theorems carry no hypothesis.
+
+Proof structure: one Hoare-style lemma per parser function (`FluentProofs/ParserBasics.lean`,
+`ParserHoareAst.lean`, `ParserHoareExpr.lean`, `ParserHoareEntry.lean`); the eight mutually
+recursive functions are handled by a joint induction on fuel with the quantitative precondition
+`4·(len − p) + rank ≤ fuel`.
+-/
 namespace FluentProofs.C01
-open FluentModel.Syntax
-theorem placeholder : True := trivial
+open FluentModel.Syntax FluentProofs.Parser
+
+/-- Rust's `&source[a..b]` is defined (in range, both ends on char boundaries). -/
+def ValidSlice (s : Src) (sp : Span) : Prop := slice s sp.start sp.stop = some sp
+
+theorem vspan_eq_validSlice (s : Src) : VSpan s = ValidSlice s :=
+  funext fun _ => propext ⟨VSpan.slice, fun h => (slice_eq_some h).2⟩
+
+/-- every string of the tree and every error slice is a valid slice of `s` -/
+def ResultValid (s : Src) (r : Resource Span × List PErr) : Prop :=
+  (∀ e ∈ r.1, allEntry (ValidSlice s) e) ∧
+  (∀ e ∈ r.2, ∀ a b, e.slice = some (a, b) → slice s a b = some ⟨a, b⟩)
+
+theorem resultValid_of_done {s : Src} {o : Outcome (Resource Span × List PErr)} (h : Done s o) :
+    ∃ r, o = .done r ∧ ResultValid s r := by
+  obtain ⟨r, h1, h2, h3⟩ := h
+  refine ⟨r, h1, ?_, ?_⟩
+  · rw [← vspan_eq_validSlice]; exact h2
+  · intro e he a b hab
+    exact (h3 e he a b hab).slice
+
+/-- **Totality + slice validity of the full parser on any byte source with the `&str` invariant.** -/
+theorem parse_total_src (s : Src) (hs : AsciiThenBoundary s) : ∃ r, parse s = .done r ∧ ResultValid s r := by
+  unfold parse
+  have hA := skipBlankBlock_after s 0
+  have hb := hA.bnd hs (bnd_zero s)
+  exact resultValid_of_done
+    (parseLoop_done hs (s.size + 1) [] [] none 0 _ hb.le hb (by omega) (by simp) (by simp) (by simp))
+
+/-- **Totality + slice validity of the runtime parser on any byte source with the `&str` invariant.** -/
+theorem parseRuntime_total_src (s : Src) (hs : AsciiThenBoundary s) :
+    ∃ r, parseRuntime s = .done r ∧ ResultValid s r := by
+  unfold parseRuntime
+  have hA := skipBlankBlock_after s 0
+  have hb := hA.bnd hs (bnd_zero s)
+  exact resultValid_of_done
+    (parseRuntimeLoop_done hs (s.size + 1) [] [] _ (fun _ => hb) (by omega) (by simp) (by simp))
+
+/-- **C01 (full parser).**  For every string, `parse` on its UTF-8 bytes returns `done`: no panic,
+no fuel exhaustion. -/
+theorem parse_total (str : String) : ∃ r, parse str.toUTF8.data = .done r := by
+  obtain ⟨r, h, _⟩ := parse_total_src _ (asciiThenBoundary_of_string str)
+  exact ⟨r, h⟩
+
+/-- **C01 (runtime parser).** -/
+theorem parseRuntime_total (str : String) : ∃ r, parseRuntime str.toUTF8.data = .done r := by
+  obtain ⟨r, h, _⟩ := parseRuntime_total_src _ (asciiThenBoundary_of_string str)
+  exact ⟨r, h⟩
+
+/-- **C01 (slices).**  Every `Span` in the tree returned by `parse` (identifiers, text elements,
+literals, comment lines, junk, …) and every error's `slice` is a byte range `a..b` with
+`slice s a b = some ⟨a, b⟩`, i.e. `a ≤ b ≤ len` and both ends are char boundaries; so the borrowed
+(`&str`) and owned (`String`) instantiations slice exactly the same, well-defined ranges. -/
+theorem parse_slices_valid (str : String) (r : Resource Span × List PErr)
+    (h : parse str.toUTF8.data = .done r) : ResultValid str.toUTF8.data r := by
+  obtain ⟨r', h', hv⟩ := parse_total_src _ (asciiThenBoundary_of_string str)
+  rw [h] at h'
+  cases h'
+  exact hv
+
+/-- **C01 (slices, runtime parser).** -/
+theorem parseRuntime_slices_valid (str : String) (r : Resource Span × List PErr)
+    (h : parseRuntime str.toUTF8.data = .done r) : ResultValid str.toUTF8.data r := by
+  obtain ⟨r', h', hv⟩ := parseRuntime_total_src _ (asciiThenBoundary_of_string str)
+  rw [h] at h'
+  cases h'
+  exact hv
+
+/-- **Fuel sufficiency, explicitly.**  The entry loop needs at most `len + 1` iterations and the
+expression/pattern functions at most `exprFuel s = 8·len + 16` nested calls: with exactly these
+amounts (the ones `parse` passes) the loop never reports `outOfFuel`. -/
+theorem parse_fuel_sufficient (str : String) :
+    ∃ r, parseLoop str.toUTF8.data (exprFuel str.toUTF8.data) (str.toUTF8.data.size + 1) [] [] none 0
+      (skipBlankBlock str.toUTF8.data 0).1 = .done r :=
+  parse_total str
+
+/-! ## non-vacuity and sanity tests (`decide +kernel` on literals: these are tests, not proofs of the property) -/
+
+/-- test: `"a = {$x}\n# c\n-t = v\n"` parses to two entries (the comment is attached to the term) without errors -/
+example : (match parse #[97, 32, 61, 32, 123, 36, 120, 125, 10, 35, 32, 99, 10, 45, 116, 32, 61, 32, 118, 10] with
+    | .done r => r.1.length == 2 && r.2.isEmpty
+    | _ => false) = true := by decide +kernel
+
+/-- test: junk recovery — `"é = 1\nb = 2\n"` gives one junk entry, one message and one error -/
+example : (match parse #[0xC3, 0xA9, 32, 61, 32, 49, 10, 98, 32, 61, 32, 50, 10] with
+    | .done r => r.1.length == 2 && r.2.length == 1
+    | _ => false) = true := by decide +kernel
+
+/-- test: the runtime parser skips the comment of the first example -/
+example : (match parseRuntime #[97, 32, 61, 32, 123, 36, 120, 125, 10, 35, 32, 99, 10, 45, 116, 32, 61, 32, 118, 10] with
+    | .done r => r.1.length == 2 && r.2.isEmpty
+    | _ => false) = true := by decide +kernel
+
+/-- test: the `&str` invariant is needed — on the non-UTF-8 bytes `61 80` (`a` followed by a stray
+continuation byte) the identifier slice `0..1` ends off a char boundary and the model panics, as
+Rust's `&str[0..1]` would if such a `&str` could exist. -/
+example : (match parse #[97, 0x80] with
+    | .panic _ => true
+    | _ => false) = true := by decide +kernel
+
+/-- the hypothesis of the `_src` theorems is satisfiable by every string -/
+example : AsciiThenBoundary "a = é😀\n".toUTF8.data := asciiThenBoundary_of_string _
+
 end FluentProofs.C01
